@@ -33,6 +33,7 @@ bits 64
 %define F_OUT_K     320      ; 8 x 8
 %define F_VEC_IN    384      ; 32 x 64
 %define F_VEC_OUT   2432     ; 32 x 64
+%define F_OUT_GPR   4480     ; rdi rsi rdx rcx r8 r9 r10 r11
 ; total 4480
 
 extern g_simframe
@@ -104,6 +105,14 @@ simcall:
 	mov	[rax + F_OUT_CALLEE + 24], r13
 	mov	[rax + F_OUT_CALLEE + 32], r14
 	mov	[rax + F_OUT_CALLEE + 40], r15
+	mov	[rax + F_OUT_GPR + 0], rdi
+	mov	[rax + F_OUT_GPR + 8], rsi
+	mov	[rax + F_OUT_GPR + 16], rdx
+	mov	[rax + F_OUT_GPR + 24], rcx
+	mov	[rax + F_OUT_GPR + 32], r8
+	mov	[rax + F_OUT_GPR + 40], r9
+	mov	[rax + F_OUT_GPR + 48], r10
+	mov	[rax + F_OUT_GPR + 56], r11
 	mov	rsp, [rax + F_HOST_RSP]
 	pushfq
 	pop	rbx
